@@ -615,7 +615,7 @@ func init() {
 	register(&Check{
 		ID: "C08",
 		Expl: "Decides the shape of the negotiation code: (E6.session-options) every per-session option published on establishment is rewritten on every path (no value survives from the previous session); (E6.holdtime-min / holdtime-domain) the stored hold time is the smaller operand of its guarding comparison, keepalive is a third of it under the documented guard, and hold times 1–2 are refused while 0 and ≥3 are accepted (finite-domain evaluation); " +
-			"(E6.negotiation-intersection) families are negotiated inside local ∩ remote, each ADD-PATH direction needs the local bit and the peer's complementary bit, and all received ADD-PATH capability instances are merged; (E6.marshalling-options) the options used to parse and emit on the session come from the negotiated state; (E4.extended-message-types) receiver and serialiser lift the 4096 cap for exactly UPDATE/NOTIFICATION/ROUTE-REFRESH; (E6.as-trans) the raw 2-octet My-AS is only read through the 4-octet-aware helper and AS_TRANS is substituted exactly above 65535; (E6.addpath-direction) serialisers use the send and decoders the receive direction.",
+			"(E6.negotiation-intersection) families are negotiated inside local ∩ remote, each ADD-PATH direction needs the local bit and the peer's complementary bit, and all received ADD-PATH capability instances are merged; (E6.marshalling-options) the options used to parse and emit on the session come from the negotiated state; (E4.extended-message-types) receiver and serialiser lift the 4096 cap for exactly UPDATE/NOTIFICATION/ROUTE-REFRESH; (E6.as-trans) the raw 2-octet My-AS is only read through the 4-octet-aware helper and AS_TRANS is substituted exactly above 65535; (E6.addpath-direction) serialisers use the send and decoders the receive direction. Also: (E6.option-scan-any) marshalling options combine by OR; (E6.hold-timer-source) only OPEN construction and negotiation read the configured hold time; (E6.per-family-independent) the local ADD-PATH mode of a family does not depend on the families before it.",
 		Not: "The numeric results for all configurations and OPEN messages (which capability multiset yields which option values) are not decided beyond these shapes.",
 		Run: func(c *Ctx) {
 			c.ruleSessionOptionsRefreshed("E6.session-options", nil, 7)
@@ -626,6 +626,9 @@ func init() {
 			c.ruleExtendedMessageTypes()
 			c.ruleASNReaders()
 			c.ruleAddPathDirection("E6.addpath-direction")
+			c.ruleOptionScanAny("E6.option-scan-any")
+			c.ruleHoldTimerSource("E6.hold-timer-source")
+			c.rulePerFamilyIndependent("E6.per-family-independent")
 		},
 	})
 }
